@@ -1,6 +1,7 @@
 import I18n.Lemmas.CharsetTables
 import I18n.Lemmas.CharsetCharmaps
 import I18n.Lemmas.CharsetIconv
+import I18n.Lemmas.CharsetIconvSchedule
 import I18n.Lemmas.CharsetCheckTags
 import I18n.Lemmas.CharsetEucTw
 import I18n.Lemmas.CharsetEucTwReal
@@ -463,6 +464,77 @@ theorem iconv_encode_loop_terminates (step : Step) (n need fuel : Nat) (hne : n 
   unfold encodeDl
   simp only [hne, if_false]
   exact encodeLoop_terminates step n need hb fuel n (by omega) (by omega) (by omega)
+
+/-- **the exact schedule** — for every iconv: round `i` of `_decode_dl` is told `len(input) · 2^i` bytes of the `4 ·` that
+    allocated, round `i` of `_encode_dl` is told all of the `len(input) · 2^i` bytes allocated -/
+theorem iconv_loop_schedule (step : Step) (input : List UInt8) (n fuel i : Nat) (a : Alloc) :
+    ((decodeDl step input fuel).2[i]? = some a → a.told = input.length * 2 ^ i ∧ a.allocated = 4 * (input.length * 2 ^ i)) ∧
+    ((encodeDl step n fuel).2[i]? = some a → a.told = n * 2 ^ i ∧ a.allocated = n * 2 ^ i) := by
+  constructor
+  · intro h
+    unfold decodeDl at h
+    split at h
+    · simp at h
+    · exact decodeLoop_schedule step input fuel _ i a h
+  · intro h
+    unfold encodeDl at h
+    split at h
+    · simp at h
+    · exact encodeLoop_schedule step n fuel _ i a h
+
+/-- **(b′) a logarithmic number of rounds**: if iconv stops answering E2BIG once told `need` bytes, and `len · 2^k ≥ need`, the
+    loop makes at most `k + 1` rounds (so `⌈log2 (need / len)⌉ + 1`) and needs no more fuel than that -/
+theorem iconv_loop_rounds_log (step : Step) (input : List UInt8) (n need fuel k : Nat) :
+    ((∀ told, need ≤ told → (step told).reset = none → (callBoth input.length told (step told)).rc ≠ .e2big) →
+      need ≤ input.length * 2 ^ k →
+      (decodeDl step input fuel).2.length ≤ k + 1 ∧ (k < fuel → (decodeDl step input fuel).1.finished = true)) ∧
+    ((∀ told, need ≤ told → (step told).reset = none → (callBoth (4 * n) told (step told)).rc ≠ .e2big) →
+      need ≤ n * 2 ^ k →
+      (encodeDl step n fuel).2.length ≤ k + 1 ∧ (k < fuel → (encodeDl step n fuel).1.finished = true)) := by
+  constructor
+  · intro hb hk
+    unfold decodeDl
+    split
+    · simp [Outcome.finished]
+    · exact decodeLoop_rounds step input need hb fuel _ k hk
+  · intro hb hk
+    unfold encodeDl
+    split
+    · simp [Outcome.finished]
+    · exact encodeLoop_rounds step n need hb fuel _ k hk
+
+/-- **the buffer stays below twice what is needed**: against an iconv that answers E2BIG only when told fewer than `need`
+    bytes, every round after the first is told fewer than `2 · need` bytes (and allocates that, resp. four times that) -/
+theorem iconv_loop_buffer_bound (step : Step) (input : List UInt8) (n need fuel : Nat) :
+    ((∀ told, (step told).reset = none → (callBoth input.length told (step told)).rc = .e2big → told < need) →
+      ∀ a ∈ (decodeDl step input fuel).2, a.told = input.length ∨ a.told < 2 * need) ∧
+    ((∀ told, (step told).reset = none → (callBoth (4 * n) told (step told)).rc = .e2big → told < need) →
+      ∀ a ∈ (encodeDl step n fuel).2, (a.told = n ∨ a.told < 2 * need) ∧ a.allocated = a.told) := by
+  constructor
+  · intro he a ha
+    unfold decodeDl at ha
+    split at ha
+    · simp at ha
+    · exact decodeLoop_buffer step input need he fuel _ a ha
+  · intro he a ha
+    have hal := (iconv_told_le_allocated step [] n fuel).2 a ha
+    unfold encodeDl at ha
+    split at ha
+    · simp at ha
+    · exact ⟨encodeLoop_buffer step n need he fuel _ a ha, hal.2.1⟩
+
+/-- **what termination rests on**: a loop that stops doubling (`output_len = 2 * len(input)` in place of `output_len *= 2`) never
+    ends against a contract-abiding iconv — one character that needs three bytes (`€` to UTF-8): told 1, 2, 2, 2, … bytes it
+    answers E2BIG for ever — while the loop as written is told 1, 2, 4 and returns the three bytes; `encodeLoopG` with
+    `· * 2` is the model of the code -/
+theorem non_doubling_loop_diverges :
+    ConvertsTo euroStep (4 * 1) [0xE2, 0x82, 0xAC] 3 ∧
+    (∀ fuel, (encodeLoopG (fun _ => 2 * 1) euroStep 1 fuel 1).1 = .outOfFuel) ∧
+    (encodeDl euroStep 1 3).1 = .ok [0xE2, 0x82, 0xAC] ∧ (encodeDl euroStep 1 3).2 = [⟨1, 1⟩, ⟨2, 2⟩, ⟨4, 4⟩] ∧
+    (∀ step n fuel L, encodeLoopG (· * 2) step n fuel L = encodeLoop step n fuel L) :=
+  ⟨euroStep_contract, fun fuel => stuck_loop_never_ends fuel 1 (by omega),
+    encodeLoop_returns_produced euroStep 1 _ 3 euroStep_contract 3 1 (by omega) (by omega) (by omega),
+    by decide +kernel, encodeLoopG_double⟩
 
 /-- **(c) the result is exactly what iconv produced**: against an iconv that answers E2BIG below `need` bytes and otherwise
     converts the whole input into `produced` (wide characters within U+0000..U+10FFFF — glibc's UTF-8 → WCHAR_T does not
